@@ -212,6 +212,11 @@ func sessionC08(r *vk.Run, rng *rand.Rand, bin string, wkr, idx int) {
 				r.Violate(vk.Violation{Summary: "C08: fzf exited during the session: " + s.Stderr(), Witness: map[string]any{"history": hist, "stderr": s.Stderr()}})
 			} else {
 				r.Inconclusive(fmt.Sprintf("no quiescence within the watchdog after %q: %s (trace tail: %s)", hist[len(hist)-1].Post, s.LastWait, traceTail(s)))
+				// keep a goroutine dump of the stuck process for the evidence
+				procs := fmt.Sprintf("%+v", s.SessionProcs())
+				s.Signal(syscall.SIGQUIT)
+				s.WaitExit(3 * time.Second)
+				r.Extra("stuck_session", map[string]any{"history": hist, "fzf_args": fzfArgs, "failpoints": points, "trace": traceLines(s, 200), "processes": procs, "goroutine_dump": clipDump(s.Stderr())})
 			}
 			return
 		}
